@@ -8,11 +8,41 @@ import (
 	"bytes"
 	"errors"
 	"io"
+	"os"
 	"strings"
+	"syscall"
 )
 
 // ErrInjected is the transport failure value E of the specification.
 var ErrInjected = errors.New("verif: injected transport failure")
+
+// injErr is E in other clothes: the failure a transport reports may itself wrap io.EOF, be an interrupted system call or
+// a timeout (net.Error).  errors.Is(err, ErrInjected) holds for all of them, which is what the checks ask for.
+type injErr struct{ kind string }
+
+func (e injErr) Error() string { return "verif: injected transport failure (" + e.kind + ")" }
+func (e injErr) Is(target error) bool {
+	switch {
+	case target == ErrInjected:
+		return true
+	case e.kind == "eof":
+		return target == io.EOF
+	case e.kind == "eintr":
+		return target == syscall.EINTR
+	case e.kind == "timeout":
+		return target == os.ErrDeadlineExceeded
+	}
+	return false
+}
+func (e injErr) Timeout() bool   { return e.kind == "timeout" }
+func (e injErr) Temporary() bool { return e.kind == "timeout" || e.kind == "eintr" }
+
+func injected(kind string) error {
+	if kind == "" {
+		return ErrInjected
+	}
+	return injErr{kind}
+}
 
 type readerPlan struct {
 	Chunks []int  `json:"chunks"` // sizes of successive deliveries; 0 = a (0,nil) read; exhausted = deliver all that fits
@@ -20,6 +50,7 @@ type readerPlan struct {
 	With   bool   `json:"with"`   // fate returned together with the last delivered bytes
 	Cut    *int   `json:"cut"`    // absent: whole stream; else only bytes[:cut] are ever delivered
 	Rich   bool   `json:"rich"`   // the reader handed to ReadPacket also offers ReadByte (io.ByteReader)
+	EKind  string `json:"ekind"`  // what the failure E looks like: "" plain, "eof" wraps io.EOF, "eintr", "timeout"
 }
 
 type readCall struct {
@@ -104,7 +135,7 @@ func newScriptedReader(data []byte, plan readerPlan) *scriptedReader {
 
 func (r *scriptedReader) fateErr() (error, string) {
 	if r.plan.Fate == "err" {
-		return ErrInjected, "E"
+		return injected(r.plan.EKind), "E"
 	}
 	return io.EOF, "eof"
 }
@@ -156,6 +187,7 @@ type writerPlan struct {
 	K    int    `json:"k"`
 	Step int    `json:"step"` // >0: accept at most Step bytes per call without error? (not io.Writer conforming) unused
 	Rich bool   `json:"rich"` // the writer also offers WriteByte, WriteString and ReadFrom
+	EKind string `json:"ekind"`
 }
 
 // richWriter: the scripted writer with the extra method set of bytes.Buffer / bufio.Writer; each call is a logged Write.
@@ -201,7 +233,7 @@ func (w *scriptedWriter) Write(p []byte) (int, error) {
 			w.accepted = append(w.accepted, p[:min(room, len(p))]...)
 			k := min(room, len(p))
 			w.calls = append(w.calls, writeCall{len(p), k, "E"})
-			return k, ErrInjected
+			return k, injected(w.plan.EKind)
 		}
 	}
 	w.accepted = append(w.accepted, p...)
